@@ -348,3 +348,9 @@ def extra_checks(tier, seed, repo):
 def replay_extra(rec):
     from pyvc.probe import replay_import
     return replay_import(rec)
+
+
+MANIFEST = {
+    "text": 'For l = 1..10 and every m the value returned at index m+l by the real SphHarm{l} (AST re-read every run) equals the Condon-Shortley Y_lm generated from the Legendre recurrence in exact rationals, identically in theta and phi (SMT unsat per entry); order m=-l..l, conjugation symmetry on the returned values, the addition theorem as a lemma on the spec; SphHarm_above for symbolic l > 10 against the assumed scipy contract (both arms of the optional import); the dispatcher returns the table of the requested degree for l = 1..10 and l > 10 (callee contracts).',
+    "note": "floats as reals (A1); cos/sin/sqrt uninterpreted with the axioms of pyvc/axioms.py, sin(theta) >= 0 on [0, pi], parity of cos/sin, sqrt(q t) = sqrt(q) sqrt(t); scipy's sph_harm / sph_harm_y assumed to return Y_n^m (2 pi-periodic in azimuth); module import checked by a CPython probe",
+}
